@@ -917,9 +917,7 @@ class AuthRun(object):
                          'session %d: post_bootstrap succeeded although the %s query was answered %d' % (s.idx, step, b[0]))
         if value is not s.proto:
             sim.log('ready-value', s.idx, type(value).__name__)
-        if getattr(self, 'connect_mode', False):
-            return value
-        return None
+        return value
 
     def ready_err(self, s, f):
         sim = self.sim
@@ -932,9 +930,14 @@ class AuthRun(object):
         if s.ready_ok + s.ready_err > 1:
             sim.fail('C04.ready-fired-twice', 'session %d: post_bootstrap fired %d times (failure %s after %s)' % (
                 s.idx, s.ready_ok + s.ready_err, f.type.__name__, 'success' if s.ready_ok else 'failure'))
-        if getattr(self, 'connect_mode', False):
-            return f        # connect() hangs its own callbacks on this Deferred: it must still see the failure
-        return None
+        if f.check(StopRun) is None and not s.conn.client_gone and self.ch.chance(1, 3, 'configafterfailure'):
+            # the application goes on regardless and builds a TorConfig on the protocol whose authentication failed:
+            # nothing may be written to a Tor that never accepted us (judged by the wire oracle)
+            from txtorcon.torconfig import TorConfig
+            sim.probe('torconfig-built-after-failed-authentication')
+            sim.log('config-after-failure', s.idx)
+            TorConfig.from_protocol(s.proto).addErrback(lambda _: None)
+        return f            # whoever hangs further callbacks on this Deferred (connect(), TorConfig) must still see the failure
 
     # ---------------------------------------------------------------- sessions
     def start_session(self, proto=None):
